@@ -25,6 +25,7 @@ type Claim struct {
 	Explanation string   `json:"explanation"`
 	Lemmas      []string `json:"lemmas,omitempty"`
 	Replay      map[string]string `json:"replay,omitempty"` // obligation-name prefix -> replay template
+	SkipKinds   []string `json:"skip_kinds,omitempty"` // obligation kinds of these functions that belong to another property's claim
 }
 
 type KnownFinding struct {
@@ -132,6 +133,21 @@ func cmdCheck(args []string) {
 	var results []*FuncResult
 	for _, fk := range cl.Functions {
 		r := v.VerifyFunc(fk)
+		if len(cl.SkipKinds) > 0 {
+			var keep []*Obligation
+			for _, o := range r.Obls {
+				skip := false
+				for _, k := range cl.SkipKinds {
+					if o.Kind == k {
+						skip = true
+					}
+				}
+				if !skip {
+					keep = append(keep, o)
+				}
+			}
+			r.Obls = keep
+		}
 		results = append(results, r)
 		obls = append(obls, r.Obls...)
 	}
@@ -519,7 +535,7 @@ func (v *Verifier) writeReplay(file, prop, name, reason string, g *Group, r *Fun
 // pinned: removing a dereference is a harmless edit.
 func lockedKind(k string) bool {
 	switch k {
-	case "post", "inv", "monitor", "assert", "lemma", "cover", "escapable", "stable":
+	case "post", "inv", "monitor", "assert", "lemma", "cover", "escapable", "stable", "waitlevel":
 		return true
 	}
 	return false
